@@ -29,11 +29,12 @@ def run(tier, seed, pid='C08', hostile=False, flavour='fast'):
         'oracle: the same call on a freshly constructed TimeZone with its own processor (C++) / a fresh ZoneSpecifier (Python)',
         'canonical state key = complete processor cache content read through friend-named accessors (bound ZoneInfo, year, filled flag, every cached transition) plus, for managers, the round-robin index and every slot (guarded hooks verifProcessorCache/verifProcessor); states with equal keys have equal observable futures because queries read nothing else',
         'worlds: (W1) every zone of both databases with its own processor, 6 calls x 57 argument classes (years 1997..2052 + sentinel), explored to fixpoint; (W2) 2-3 TimeZone values sharing one processor over a forced-collision zone set; (W3) Basic/ExtendedZoneManager with 1..3 (thorough 4) slots holding N+1 / N+2 zones, handles created by rotating createForZoneInfo/Name/Id/Index; (W4) Python ZoneSpecifier, every ordered year pair per zone in one long history',
+        'shared and managed worlds are additionally explored statelessly (every sequence of 3 calls, 4 in the thorough tier, over a reduced alphabet, no state matching), so that behaviour depending on state outside the canonical key is still reached within that depth',
         'a world that crashes is reported with the last recorded step and abandoned (counted in worlds_aborted_by_crash)',
     ]
     return rep.finish(exhaustive=(c.get('worlds_cut_at_depth_bound', 0) == 0), extra={
         'states': c.get('states', 0), 'transitions': c.get('transitions', 0),
-        'traces_validated_against_impl': c.get('executions', 0) + npy,
+        'traces_validated_against_impl': c.get('executions', 0) + npy, 'stateless_histories': c.get('stateless_histories', 0),
         'rule': 'breadth-first exploration of operation histories on freshly built real objects with canonical-state deduplication; every transition (one call in one reachable state) is compared with the fresh-object answer; worlds_explored_to_fixpoint = worlds whose reachable state space was exhausted (all histories of any length), worlds_cut_at_depth_bound = worlds stopped at the depth bound',
     })
 
